@@ -157,14 +157,14 @@ CHECKS = {
         "level": "exploration",
         "design_ref": "DESIGN.md section 5/C04",
         "engine": "sequential driver + E1 clock",
-        "technique": "deterministic simulation: seeded sequential histories over TieredEngine with simulated clock, a tick of the real background flush/audit task on a paused runtime, and adversarial pokes planted in caches and mirror; every read judged against a reference map",
+        "technique": "deterministic simulation: seeded sequential histories over TieredEngine with simulated clock, a tick of the real background flush/audit task on a paused runtime, slow-tier faults (tier search stalled past its timeout; circuit breakers opening and half-opening on the simulated clock) and adversarial pokes planted in caches and mirror; every read judged against a reference map",
         "rule": "seeded histories (4-30 steps quick, 4-60 thorough) over TieredEngine x cache strategy {LRU, learned (trained/untrained), learned+semantic, A/B} x cache capacity {1,2,5,50} x hot hard limit {1,2,5,200} x "
                 "metric x persistence: writes, deletes, batch deletes (ids / metadata filter), metadata updates, bulk loads bypassing the recent-write tier, forced/threshold drains, clock gaps beyond max age and audit interval, "
-                "one tick + shutdown of the real spawn_flush_task loop, reads of every flavour; odd runs add pokes {stale version (incl. previous delete/reinsert epoch), foreign token, corrupted payload, mirror-only metadata; orphan "
+                "one tick + shutdown of the real spawn_flush_task loop, reads of every flavour; a quarter of the histories meet slow tiers (timed searches during which the hot and/or cold tier search is held back past its timeout by the E2 stall gate, mostly three in a row = the circuit-breaker threshold, followed by reads and clock gaps across the breaker's one-minute timeout); odd runs add pokes {stale version (incl. previous delete/reinsert epoch), foreign token, corrupted payload, mirror-only metadata; orphan "
                 "entries for ids that do not exist} into the document cache and the hot-tier mirror. Every read == model; after every drain/audit (and every 6th step) canonical census == model; full read census every 5th step. "
                 "evaluations = steps executed. distinct_nontrivial = distinct hashes of the (step kind, hot-tier size, cache size) sequence of histories longer than 3 steps.",
         "assumptions": ["operations are sequential (concurrency is C05's subject)", "server response hydration (Query/BulkQuery RPC) is not driven here"],
-        "expected_probes": ["emergency_drain", "forced_drain_moved_documents", "background_task_tick", "bulk_load", "poke_stale_version_cache", "poke_stale_version_mirror", "poke_orphan_mirror", "poke_corrupt_payload_cache", "poke_foreign_token_mirror", "document_cache_full"],
+        "expected_probes": ["emergency_drain", "forced_drain_moved_documents", "background_task_tick", "bulk_load", "slow_tier_thread_stalled", "read_while_breaker_open", "poke_stale_version_cache", "poke_stale_version_mirror", "poke_orphan_mirror", "poke_corrupt_payload_cache", "poke_foreign_token_mirror", "document_cache_full"],
         "tiers": {"quick": {"runs_per_worker": 1000000, "budget_s": 35}, "thorough": {"runs_per_worker": 10000000, "budget_s": 600}},
         "level_text": "Seeded exploration of sequential histories x configurations with cache/mirror pokes as fault injection; each read and each post-drain canonical census judged exactly against a reference map.",
         "level_note": "trusted base: reference map, pin of stored vectors (normalisation), poke classification",
@@ -188,15 +188,15 @@ CHECKS = {
         "level": "exploration",
         "design_ref": "DESIGN.md section 5/C06",
         "engine": "sequential driver + E1 clock + paused tokio runtime",
-        "technique": "deterministic simulation: seeded histories of writes/deletes/overwrites/drains followed by searches through every entry point (timed variant on a paused runtime with zero/large timeouts and 0/1/large permits), every response judged against brute-force f64 distances on a reference model",
+        "technique": "deterministic simulation: seeded histories of writes/deletes/overwrites/drains followed by searches through every entry point (timed variant on a paused runtime with 0/1/large permits and with the slow-tier fault: the hot and/or cold tier's blocking search is parked by the E2 stall gate, the paused clock is advanced past the tier's timeout, the engine takes its timeout branch, breakers open after three and half-open after a simulated minute), every response judged against brute-force f64 distances on a reference model",
         "rule": "seeded histories (4-34 steps quick, 4-70 thorough; a quarter start with a 90% tombstone prefix, a sixth of the others with a crowded neighbourhood: 3-14 superseded versions of one document next to a pooled query, a freshly acknowledged nearest live document that is re-written 2/3 of the time with the same vector, then a k=1/2 search; a sixth of later writes to a known id re-use its vector) over TieredEngine x metric x dimension {1,3,4,7,8,9,15,16,17,31,32,33,40,48,64,80,100,112} x strategies x query-cache capacity x hot limits x "
-                "timeouts {0,50,10000}/{0,1000,10000} ms x permits {0,1,1000}; searches via knn_search_with_ef_detailed_scoped (with/without ef), the batch variant, the cold backend (single/batch) and "
+                "timeouts {50,10000}/{1000,10000} ms x permits {0,1,1000}; a twelfth of the searches are timed searches with a slow hot tier, slow cold tier or both (a third of those as a burst of three, the breaker threshold); drift steps plant 1-3 recent-write-tier entries without canonical record / with a diverging vector / with a vector the index refuses, mostly drained at once; searches via knn_search_with_ef_detailed_scoped (with/without ef), the batch variant, the cold backend (single/batch) and "
                 "knn_search_with_timeouts_with_ef_scoped; k in {1,2,3,4,5,10,100,1000}; vectors exactly normalised, far from normalised and inside the [0.98,1.02] band; queries repeated to hit the result cache. "
                 "Every response: <= k results, distinct ids, all in the model now, non-decreasing distance, reported distance inside the interval spanned by the cold-tier and hot-tier formulas on the stored vector "
                 "(+- 3e-5 + 3e-4 |d|; cache hits are judged against the query of the entry that was served); every acknowledged write resident in the recent-write tier before the search that is strictly closer than the k-th result is present "
-                "(not judged for degraded/timed/cache-hit responses). evaluations = responses judged. distinct_nontrivial = distinct hashes of the (result count, execution path) sequence of runs with >1 search.",
-        "assumptions": ["the timed search path never times out here: expiry of the hot/cold tier timeouts would race with tokio's blocking pool, which the simulator does not schedule, so the degraded / partial-result branch is not explored", "a timeout firing in the middle of a tier search is not scheduled deterministically (zero timeouts and pre-set conditions only)", "recall of the approximate index is not judged (C16 is not applicable)"],
-        "expected_probes": ["path_cache_hit", "path_hot_and_cold", "path_hot_only", "path_cold_only", "load_shed", "drain_between_searches"],
+                "(judged for timed responses too unless the engine's own counters report a timeout, an open breaker, worker/queue saturation or a partial result for that call; not judged for cache hits nor while a planted mirror entry is resident). evaluations = responses judged. distinct_nontrivial = distinct hashes of the (result count, execution path) sequence of runs with >1 search.",
+        "assumptions": ["a tier timeout fires while the tier's blocking search is parked at its first lock acquisition (the engine discards whatever a timed-out tier search returns later, so where inside the search the expiry falls makes no difference to the response; memory safety of mid-search cancellation is C17's subject)", "tokio's blocking pool is not scheduled by E2: the stalled thread is released only after the engine call has returned, and the runtime is dropped (which joins it) before the next step", "recall of the approximate index is not judged (C16 is not applicable)"],
+        "expected_probes": ["path_cache_hit", "path_hot_and_cold", "path_hot_only", "path_cold_only", "load_shed", "drain_between_searches", "slow_tier_thread_stalled", "timed_degraded_hot_timeout", "timed_degraded_cold_timeout", "timed_degraded_breaker_open", "drift_repaired_into_canonical_store"],
         "tiers": {"quick": {"runs_per_worker": 1000000, "budget_s": 35}, "thorough": {"runs_per_worker": 10000000, "budget_s": 600}},
         "level_text": "Seeded exploration of histories x inputs x configurations; each search response judged exactly for soundness and recent-write completeness against a brute-force reference.",
         "level_note": "trusted base: reference map + f64 distance reference with a stated tolerance; pin of stored vectors",
@@ -207,12 +207,12 @@ CHECKS = {
         "design_ref": "DESIGN.md section 5/C07",
         "engine": "sequential driver (+ E2 for the searcher/writer race, see C07 race rows in notes)",
         "technique": "deterministic simulation: the C06 histories with a harness-side mirror of every result the engine may have cached; each reported cache hit is checked for provenance (scope, k, served list) and freshness against the write log",
-        "rule": "the C06 histories (queries repeated from a small pool under scopes {0,1,2} with k ladders; writes placed near pooled queries at offsets {0,1e-3,0.05,0.3} to sit around the pruning bound; similarity threshold 1.0 and 0.95). "
+        "rule": "the C06 histories (queries repeated from a small pool under scopes {0,1,2} with k ladders; writes placed near pooled queries at offsets {0,1e-3,0.05,0.3} to sit around the pruning bound; similarity threshold 1.0 and 0.95; timed searches under the slow-tier fault -- a partial result must never become a servable entry; drift steps whose drain repairs planted mirror-only records into the canonical store, with repairs that succeed and repairs that fail sharing one drain). "
                 "For every response reported as SearchExecutionPath::CacheHit: (1) provenance -- some mirrored result with the same scope, requested k >= k, a query at least threshold-similar and an identical k-prefix must exist "
                 "(else: foreign scope, larger-k reuse, fabricated); (2) freshness w.r.t. the most recent such entry -- since it was stored no returned id was deleted, overwritten, metadata-updated or bulk-loaded, no bulk load "
-                "happened, and no vector was written whose distance to the entry's query is strictly inside the entry's boundary. evaluations = responses judged (hits and misses). distinct_nontrivial as C06.",
+                "happened, and no vector was written (or repaired into the canonical store by a drain) whose distance to the entry's query is strictly inside the entry's boundary. evaluations = responses judged (hits and misses). distinct_nontrivial as C06.",
         "assumptions": ["similarity hits (threshold < 1, or parallel queries at threshold 1) serve another query's list by design and are judged relative to the served entry", "the searcher/writer interleaving clause is covered by the schedule-level check only for the engine paths exercised in C05/C08 programs"],
-        "expected_probes": ["path_cache_hit"],
+        "expected_probes": ["path_cache_hit", "drift_repaired_into_canonical_store", "slow_tier_thread_stalled"],
         "tiers": {"quick": {"runs_per_worker": 1000000, "budget_s": 35}, "thorough": {"runs_per_worker": 10000000, "budget_s": 600}},
         "level_text": "Seeded exploration of search/write histories; every cache hit is decided exactly against a mirror of storable results and the write log.",
         "level_note": "trusted base: the mirror of storable results, the write log, the f64 distance reference",
